@@ -16,7 +16,8 @@ import (
 // VerifHook, when non-nil, is called right BEFORE the named event happens.
 // Points: wal.write (arg = number of bytes about to be written), wal.sync,
 // page.write (arg = page offset), header.write, flush.begin, flush.end,
-// cache.set (arg = page offset when it is a uint64 key).
+// cache.set (arg = page offset when it is a uint64 key), page.fetch (arg = page
+// offset; every page lookup, cached or not).
 var VerifHook func(point string, arg uint64)
 
 // VerifNoTimer disables the background flush goroutine of every file store
